@@ -81,6 +81,9 @@ class ObjRun:
         self.fault_plan = {}       # (tag, call#) -> kind
         self.G = graphs.build(self.sc["graph"], hook=self.hook)
         self.vals = self.G["vals"]
+        # a second admissible value per variable: siblings conditioned on DIFFERENT values of the same variable
+        self.vals_alt = {n: (np.asarray(v, float) * 1.7 + (0.0 if n in ("s", "d", "b") or np.all(np.asarray(v) > 0) else 0.3))
+                         for n, v in self.vals.items()}
         self.twinG0 = graphs.build(self.sc["graph"])
         self.total = float(np.ravel(self.twinG0["J"].logd(**self.vals))[0])
         # cross-check of the reference value itself: the joint log-density is the sum of its densities' log-densities,
@@ -130,9 +133,10 @@ class ObjRun:
             return obj.to_likelihood(self.vals[step["names"][0]])
         if step.get("special") == "stacked":
             return obj._as_stacked()
+        V = self.vals_alt if step.get("alt") else self.vals
         if step["how"] == "pos":
-            return obj(*[self.vals[n] for n in step["names"]])
-        return obj(**{n: self.vals[n] for n in step["names"]})
+            return obj(*[V[n] for n in step["names"]])
+        return obj(**{n: V[n] for n in step["names"]})
 
     # ------------------------------------------------------------------ behavioural signature
     def sigma(self, obj, fixed, from_joint=False):
@@ -248,6 +252,9 @@ class ObjRun:
         except core.SimCrash:
             raise
         except Exception as e:
+            if self.fault_fired:
+                ctx.count("c01_values_skipped_fault_in_op")     # the evaluation failed because a callable misbehaved
+                return
             ctx.violate("C01", "refused_valid", dict(sg, stage="logd"), err=type(e).__name__ + ": " + str(e)[:160],
                         path=o.path)
             return
@@ -341,8 +348,16 @@ class ObjRun:
                     self.op_compose(target, op)
                 elif k == "unnamed":
                     self.op_unnamed(op)
+                elif k == "inplace":
+                    self.op_inplace(target, op)
+                elif k == "invalid_cond":
+                    self.op_invalid_cond(target)
             except core.SimCrash:
                 ctx.count("ops_crashed_by_fault")
+            except Exception:
+                if not self.fault_fired:
+                    raise                          # an operation of the harness failed without any injected fault
+                ctx.count("ops_failed_under_fault")    # e.g. a NaN hyper-parameter rejected by a constructor check
             finally:
                 self.in_op = False
             self.check_all(k)
@@ -369,6 +384,8 @@ class ObjRun:
         else:
             names = list(r.permutation(cands)[:k])
         step = {"names": names, "how": op["how"]}
+        if op.get("alt") and o.root != "J":
+            step["alt"] = True                 # (component distributions only: the C01 value oracle needs one assignment)
         sg = {"engine": "objhist", "obj_class": type(o.obj).__name__, "how": op["how"],
               "graph": self.sc["graph"]["graph"], "root": o.root.split(":")[0]}
         try:
@@ -376,7 +393,7 @@ class ObjRun:
         except core.SimCrash:
             raise
         except Exception as e:
-            if o.root == "J":
+            if o.root == "J" and not self.fault_fired:
                 ctx.violate("C01", "refused_valid", dict(sg, stage="condition", n_fixed=len(names)),
                             err=type(e).__name__ + ": " + str(e)[:160], names=names, path=o.path)
             return
@@ -494,6 +511,62 @@ class ObjRun:
             if o.root == "J" and not any(s_.get("special") for s_ in o.path) and not close(w, self.total, 1e-9):
                 ctx.violate("C01", "wrong_value", {"engine": "objhist", "obj_class": type(obj).__name__,
                                                    "how": "kw", "graph": self.sc["graph"]["graph"]}, got=w, expected=self.total)
+
+    def op_invalid_cond(self, o):
+        """a conditioning call with an unknown keyword on a distribution / likelihood (or a copy of one) is refused -
+        and, like every refused call, leaves the object, its original and its siblings as they were"""
+        from cuqi.distribution import Distribution, JointDistribution
+        from cuqi.likelihood import Likelihood
+        obj = o.obj
+        if not isinstance(obj, (Distribution, Likelihood)) or isinstance(obj, JointDistribution):
+            return
+        self.ctx.fault("refused_conditioning_call")
+        try:
+            obj(zzz_unknown=1.0)
+        except core.SimCrash:
+            raise
+        except Exception:
+            return
+        # (a distribution that accepts the unknown keyword is not judged here - C01 checks evaluations, not this)
+
+    def op_inplace(self, o, op):
+        """The caller keeps the values in numpy arrays, updates them IN PLACE (as an MCMC loop does) and evaluates
+        again with the same array objects: the result must be that of the current contents."""
+        from cuqi.density import EvaluatedDensity
+        ctx = self.ctx
+        if o.root != "J" or o.kind == "model" or isinstance(o.obj, EvaluatedDensity) or any(st.get("special") for st in o.path):
+            return
+        try:
+            pn = list(o.obj.get_parameter_names())
+        except Exception:
+            return
+        if not pn or not all(n in self.vals for n in pn):
+            return
+        if not hasattr(self, "live"):
+            self.live = {n: np.array(v, dtype=float, copy=True).reshape(np.shape(v) or (1,)) for n, v in self.vals.items()}
+        live = self.live
+        sg = {"engine": "objhist", "obj_class": type(o.obj).__name__, "how": "inplace", "graph": self.sc["graph"]["graph"]}
+        twinJ = self.twinG0["J"]
+        fixed_vals = {n: self.vals[n] for n in o.fixed}
+        for rep in range(3):
+            try:
+                got = float(np.ravel(o.obj.logd(**{n: live[n] for n in pn}))[0])
+                full = dict(fixed_vals)
+                full.update({n: np.array(live[n], copy=True) for n in pn})
+                ref = float(np.ravel(twinJ.logd(**full))[0])
+            except core.SimCrash:
+                raise
+            except Exception:
+                return
+            if self.fault_fired:
+                return
+            ctx.count("c01_values")
+            if np.isfinite(ref) and not close(got, ref, 1e-9):
+                ctx.violate("C01", "wrong_value", sg, got=got, expected=ref, repetition=rep)
+                return
+            for n in pn:                       # update the same array objects in place
+                live[n] *= 1.0 + 0.01 * (rep + 1)
+        ctx.hit("values_updated_in_place")
 
     def op_unnamed(self, op):
         """Originals created WITHOUT name= (CUQIpy then infers the name from the caller's variable names), conditioned
@@ -639,7 +712,7 @@ def _short(v):
         return str(val)[:80]
 
 
-TAGS = {"lin_s": ["y.cov"], "lin_d_s": ["x.prec", "y.cov"], "gmrf_d_s": ["x.prec", "y.prec"], "lmrf_d": ["x.scale"],
+TAGS = {"lognormal_cov_s": ["x.cov"], "lin_sqrtprecF": ["y.cov"], "lin_s": ["y.cov"], "lin_d_s": ["x.prec", "y.cov"], "gmrf_d_s": ["x.prec", "y.prec"], "lmrf_d": ["x.scale"],
         "two_lik": ["y2.cov"], "nonlin": ["y.cov"], "xz_s": ["y.cov"], "laplace_b": ["x.scale"],
         "mean_m": ["x.mean", "y.cov"], "cmrf_d": ["x.scale"], "lognormal": ["y.cov"]}
 
@@ -656,7 +729,7 @@ def gen_case(r, tier):
         on = r.randrange(64)
         if x < 0.42:
             ops.append({"op": "cond", "on": on, "how": r.choice(["kw", "kw", "pos"]), "pick": r.randrange(10 ** 6),
-                        "multi": r.random() < 0.6})
+                        "multi": r.random() < 0.6, "alt": r.random() < 0.35})
         elif x < 0.62:
             ops.append({"op": "eval", "on": on, "what": r.choice(["logd", "logd", "gradient", "sample", "observers"]),
                         "how": r.choice(["kw", "pos"]), "N": r.choice([1, 3]), "pick": r.randrange(1000)})
@@ -675,8 +748,10 @@ def gen_case(r, tier):
         elif x < 0.95:
             ops.append({"op": "unnamed", "variant": r.choice(["evaluated_first", "name_read_first", "likelihood",
                                                               "partial_then_data", "positional"])})
-        elif x < 0.955:
-            pass
+        elif x < 0.965:
+            ops.append({"op": "inplace", "on": on})
+        elif x < 0.98:
+            ops.append({"op": "invalid_cond", "on": on})
         else:
             ops.append({"op": "fault", "tag": r.choice(TAGS[g]), "k": r.randint(0, 6), "kind": r.choice(["raise", "nan"])})
     return {"scenario": sc, "ops": ops}
